@@ -1,7 +1,7 @@
 //! C08 — Prometheus output is well-formed exposition text for any input strings.
 
 use metrics::{Key, Label, Level, Metadata, Recorder, Unit};
-use metrics_exporter_prometheus::PrometheusBuilder;
+use metrics_exporter_prometheus::{Matcher, PrometheusBuilder};
 
 use crate::{
     engine::{
@@ -56,6 +56,8 @@ pub struct Case {
     pub buckets: Option<Vec<f64>>,
     pub globals: Vec<(String, String)>,
     pub metrics: Vec<MetricSpec>,
+    /// per-metric bucket overrides: (0 full / 1 prefix / 2 suffix, pattern)
+    pub overrides: Vec<(u8, String)>,
 }
 
 fn dec_string(src: &mut Source, max: usize) -> String {
@@ -106,7 +108,21 @@ pub fn decode(src: &mut Source) -> Case {
             metrics[i].labels.push(("sidkz".to_string(), format!("s{}", i)));
         }
     }
-    Case { unit_suffix, buckets, globals, metrics }
+    // bucket overrides for some histograms, by full name (raw or sanitised), by a prefix or by a suffix of the name
+    let mut overrides = vec![];
+    for m in metrics.iter().filter(|m| m.kind == 'h') {
+        if src.chance(90) {
+            let raw: Vec<char> = m.name.chars().collect();
+            let k = 1 + src.below(raw.len().min(12));
+            overrides.push(match src.below(4) {
+                0 => (0, m.name.clone()),
+                1 => (0, super::c07::ref_metric_name(&m.name)),
+                2 => (1, raw[..k].iter().collect()),
+                _ => (2, raw[raw.len() - k..].iter().collect()),
+            });
+        }
+    }
+    Case { unit_suffix, buckets, globals, metrics, overrides }
 }
 
 pub fn build(case: &Case) -> metrics_exporter_prometheus::PrometheusRecorder {
@@ -116,6 +132,14 @@ pub fn build(case: &Case) -> metrics_exporter_prometheus::PrometheusRecorder {
     }
     for (k, v) in &case.globals {
         b = b.add_global_label(k.clone(), v.clone());
+    }
+    for (kind, pat) in &case.overrides {
+        let m = match kind {
+            0 => Matcher::Full(pat.clone()),
+            1 => Matcher::Prefix(pat.clone()),
+            _ => Matcher::Suffix(pat.clone()),
+        };
+        b = b.set_buckets_for_metric(m, &[1.0, 5.0]).expect("non-empty buckets");
     }
     b.build_recorder()
 }
@@ -179,21 +203,35 @@ pub fn structural_oracle(case: &Case, text: &str) -> Result<Vec<PromFamily>, Fai
                 None => groups.push((base, 1, q)),
             }
         }
-        for (labels, n, q) in &groups {
-            let per_series = match f.mtype.as_str() {
-                "counter" | "gauge" => 1,
-                "histogram" => case.buckets.as_ref().map(|b| b.len()).unwrap_or(0) + 1 + 2,
-                _ => q + 2,
-            };
-            ensure!(*n == per_series, "sample-count-mismatch", "family {:?} of type {}: the series with labels {:?} has {} samples, expected {} (a forged sample or label?) ; output {:?}", f.name, f.mtype, labels.iter().map(|l| &l.0).collect::<Vec<_>>(), n, per_series, text);
+        // bucket lines per histogram series: the global bounds + Inf, or an override's two bounds + Inf
+        let mut allowed_k: Vec<usize> = vec![];
+        if let Some(b) = &case.buckets {
+            allowed_k.push(b.len() + 1);
         }
-        if f.mtype == "histogram" {
-            let buckets = f.samples.iter().filter(|(n, l, _, _)| n.ends_with("_bucket") && l.iter().any(|(k, _)| k == "le")).count();
-            ensure!(buckets == groups.len() * (case.buckets.as_ref().map(|b| b.len()).unwrap_or(0) + 1), "bucket-lines-malformed", "family {:?}: {} bucket samples with an le label for {} series ; output {:?}", f.name, buckets, groups.len(), text);
+        if !case.overrides.is_empty() {
+            allowed_k.push(3);
+        }
+        let bucket_lines = f.samples.iter().filter(|(n, l, _, _)| n.ends_with("_bucket") && l.iter().any(|(k, _)| k == "le")).count();
+        for (labels, n, q) in &groups {
+            let ok = match f.mtype.as_str() {
+                "counter" | "gauge" => *n == 1,
+                "histogram" => allowed_k.iter().any(|k| *n == k + 2 && bucket_lines == groups.len() * k),
+                _ => *n == q + 2,
+            };
+            ensure!(ok, "sample-count-mismatch", "family {:?} of type {}: the series with labels {:?} has {} samples ({} bucket lines in the family of {} series; bucket lines per series may be {:?}) — a forged sample or label? ; output {:?}", f.name, f.mtype, labels.iter().map(|l| &l.0).collect::<Vec<_>>(), n, bucket_lines, groups.len(), allowed_k, text);
         }
         let mut counts: Vec<usize> = groups.iter().map(|g| g.0.len()).collect();
         counts.sort();
         got.push((f.mtype.clone(), counts));
+    }
+    if !case.overrides.is_empty() {
+        // which override applies to which name is C15's business: here a histogram may be either, as long as its
+        // samples fit the type its TYPE line declares (checked by the parser and above)
+        for e in expected.iter_mut().chain(got.iter_mut()) {
+            if e.0 == "histogram" || e.0 == "summary" {
+                e.0 = "histogram-or-summary".to_string();
+            }
+        }
     }
     expected.sort();
     got.sort();
